@@ -36,6 +36,8 @@ Definition wBufSlice b s e := OBufSlice (n_ b) s e.
 Definition wGoWrite b i x := OGoWrite (n_ b) i (Z.to_N x).
 Definition wDetach b := ODetach (n_ b).
 Definition wLens v := OLens (n_ v).
+Definition wGoExport v := OGoExport (n_ v).
+Definition wGoExportWrite v j raw := OGoExportWrite (n_ v) j raw.
 Definition wCtorFrom k sv := OCtorFrom k (n_ sv).
 Definition sN (m e : Z) : sval := SNum (to_bits (dec m e)).
 Definition wIncludes v x (f : option iarg) := OIncludes (n_ v) x f.
@@ -44,7 +46,7 @@ Definition wLastIndexOf v x (f : option iarg) := OLastIndexOf (n_ v) x f.
 
 Inductive ores :=
 | XUndef | XNum (m e : Z) | XBig (z : Z) | XErr (e : err) | XPanic | XOther
-| XNew (len : Z) | XLens (a b c : Z) | XBool (b : bool).
+| XNew (len : Z) | XLens (a b c : Z) | XBool (b : bool) | XExp (off len hash : Z).
 
 (* one step: result, "all canary bytes around every Go-supplied buffer are intact", a 32-bit
    polynomial hash of the memory of all buffers (-1: same as at the previous step), and the bit mask
@@ -90,6 +92,7 @@ Definition res_match (o : ores) (r : res) : bool :=
   | XNew a, RNewBuf n => a =? n
   | XLens a b c, RLens x y z => (a =? x) && (b =? y) && (c =? z)
   | XBool a, RBool b => Bool.eqb a b
+  | XExp a b c, RExp x y z => (a =? x) && (b =? y) && (c =? z)
   | _, _ => false
   end.
 
